@@ -24,7 +24,14 @@ use std::sync::atomic::{AtomicBool, AtomicU64, AtomicUsize, Ordering};
 use std::sync::{Arc, OnceLock};
 use std::time::{Duration, Instant};
 
-pub fn gen(r: &mut Rng, _i: u64) -> String {
+pub fn gen(r: &mut Rng, i: u64) -> String {
+    if i % 15 == 4 {
+        // always there, whatever the seed: through the resolver, a single candidate that never answers, and an overall deadline
+        // that is the only bound (or far shorter than the per-attempt timeout)
+        let ct = if (i / 15) % 2 == 0 { "2000" } else { "-" };
+        let conc = *r.pick(&["1", "2", "-"]);
+        return format!("300 {conc} {ct} 0 c ; hang");
+    }
     let t = *r.pick(&["300", "600", "600", "-"]);
     let ct = *r.pick(&["-", "-", "120"]);
     let conc = *r.pick(&["1", "1", "1", "2", "-"]);
